@@ -19,8 +19,13 @@ add feedback, archive contents) changed, the direction did not move during
 `default_rng(seed).standard_normal(d) * (upper_bounds - lower_bounds)`.
 """
 import atexit
+import glob
 import hashlib
 import itertools
+import json
+import os
+import shutil
+import tempfile
 import warnings
 from fractions import Fraction
 
@@ -66,8 +71,13 @@ RULE = ("four strata. `combinations`: for every ranker, every batch of size 1..3
         "archive without compute_density, shape mismatches, missing novelty). `direction`: the two random-direction "
         "rankers under histories of reset / rank / setter calls, direction replayed from the seed (int seeds and "
         "SeedSequences, constructed directly or by a real EvolutionStrategyEmitter), power-of-two and general "
-        "measure ranges. `emitter`: a real EvolutionStrategyEmitter + real archive driven through ask / add / rank / "
-        "tell cycles with restarts. A case is non-trivial when some ranked batch has two rows with the same key "
+        "measure ranges, on archives with fixed bounds (GridArchive) and on archives whose bounds MOVE between "
+        "resets (SlidingBoundariesArchive with small remap_frequency, ProximityArchive growing; entries added by "
+        "add / add_single between the resets): after every reset the direction must be the replayed draw times "
+        "(upper_bounds - lower_bounds) read from the archive at that moment. `emitter`: a real "
+        "EvolutionStrategyEmitter + real archive (grid / sliding / proximity) driven through ask / add / rank / "
+        "tell cycles with restarts (restart_rule no_improvement, 1, 2, basic; restarts detected through the public "
+        "restart counter). A case is non-trivial when some ranked batch has two rows with the same key "
         "(a tie) or the history has two resets; counted once per distinct op list")
 PARTIAL = []
 ASSUMPTIONS = [
@@ -104,7 +114,8 @@ ERRS = {RuntimeError: "runtime", AttributeError: "attribute", ValueError: "value
 ST, VAL, OBJ, MEAS, NOV, DEN = range(6)
 
 _DRV = [None]
-STATS = {"rank-calls-compared": 0, "rank-calls-skipped-inexact-projection": 0, "rejections-compared": 0,
+STATS = {"range-subtraction-rounded": 0, "resets-after-the-bounds-moved": 0, "resets-skipped-empty-archive": 0,
+         "rank-calls-compared": 0, "rank-calls-skipped-inexact-projection": 0, "rejections-compared": 0,
          "resets-replayed": 0, "resets-rounded-then-synchronised": 0, "restarts-inside-tell": 0,
          "tell-raised": 0}
 
@@ -174,13 +185,19 @@ def archive_digest(archive):
 
 
 def make_archive(case):
-    from ribs.archives import GridArchive, ProximityArchive
+    from ribs.archives import GridArchive, ProximityArchive, SlidingBoundariesArchive
 
     dt = np.dtype(case["adt"]).type
     sd = case["sol_dim"]
     if case["archive"] == "proximity":
+        # bounds = min / max of the stored measures: they move as the archive grows
         return ProximityArchive(solution_dim=sd, measure_dim=len(case["ranges"]), k_neighbors=1,
-                                novelty_threshold=0.5, dtype=dt)
+                                novelty_threshold=case.get("nov_thr", 0.5), dtype=dt)
+    if case["archive"] == "sliding":
+        # bounds are recomputed from the buffer at every remap
+        return SlidingBoundariesArchive(solution_dim=sd, dims=case["dims"], ranges=[tuple(r) for r in case["ranges"]],
+                                        remap_frequency=case.get("remap", 3), buffer_capacity=case.get("buffer", 6),
+                                        dtype=dt)
 
     class DensityGrid(GridArchive):
         """GridArchive with the `compute_density` method DensityRanker asks for."""
@@ -198,6 +215,32 @@ def make_archive(case):
 
     cls = DensityGrid if case["archive"] == "density" else GridArchive
     return cls(solution_dim=sd, dims=case["dims"], ranges=[tuple(r) for r in case["ranges"]], dtype=dt)
+
+
+def grow(archive, rows, d, sol_dim, single=False):
+    """add rows to the archive (this is what moves the bounds of sliding / proximity archives)"""
+    if not rows:
+        return
+    meas = np.array([r[MEAS] for r in rows], dtype=np.float64).reshape(len(rows), -1)[:, :d]
+    obj = [r[OBJ] for r in rows]
+    if single:
+        for o, m in zip(obj, meas):
+            archive.add_single(np.zeros(sol_dim), o, m)
+    else:
+        archive.add(np.zeros((len(rows), sol_dim)), obj, meas)
+
+
+def bounds_of(archive):
+    """(lower, upper) as the archive reports them right now, or None (empty ProximityArchive)"""
+    try:
+        return np.asarray(archive.lower_bounds), np.asarray(archive.upper_bounds)
+    except RuntimeError:
+        return None
+
+
+def bounds_key(archive):
+    b = bounds_of(archive)
+    return None if b is None else (b[0].tolist(), b[1].tolist())
 
 
 def replay_seed(case):
@@ -246,6 +289,8 @@ class Run:
         self.drv = driver()
         self.archive = make_archive(case)
         self.d = len(case["ranges"])
+        grow(self.archive, case.get("prefill") or [], self.d, case["sol_dim"])
+        self.bounds_at_reset = []  # bounds in force at each replayed reset (coverage)
         cls = getattr(rk, CLS[self.kind])
         seedkind = case["seedkind"]
         self.replay = None if seedkind == "none" else np.random.default_rng(replay_seed(case))
@@ -261,7 +306,8 @@ class Run:
                 return r
 
             self.emitter = EvolutionStrategyEmitter(self.archive, x0=x0, sigma0=1.0, ranker=factory,
-                                                    seed=case["seed"], batch_size=bs)
+                                                    seed=case["seed"], batch_size=bs,
+                                                    restart_rule=case.get("restart_rule", "no_improvement"))
             self.ranker = got[0]
             self.pending_reset = True  # the emitter's constructor called reset(self, archive)
         else:
@@ -305,11 +351,18 @@ class Run:
             self.drv.ask(f"reset z={ql([0] * self.d)} lo={ql([0] * self.d)} hi={ql([1] * self.d)}")
             return self.compare_dir(where)
         after = self.impl_dir()
-        lo = [fr(x) for x in self.archive.lower_bounds]
-        hi = [fr(x) for x in self.archive.upper_bounds]
+        # the archive's measure ranges AT THIS MOMENT (sliding / proximity archives move their bounds)
+        lb, ub = bounds_of(self.archive)
+        rng_f = ub - lb  # the float subtraction the documented formula performs
+        lo = [fr(x) for x in lb]
+        hi = [fr(x) for x in ub]
+        if [h - l for l, h in zip(lo, hi)] != [fr(x) for x in rng_f]:
+            # upper - lower is itself rounded (non-dyadic bounds): hand the model the rounded ranges
+            STATS["range-subtraction-rounded"] += 1
+            lo, hi = [Fraction(0)] * self.d, [fr(x) for x in rng_f]
         if after is None or after.shape != (self.d,) or not finite(after):
             return Failure("oracle", f"{where}: direction after reset is {after}, expected shape ({self.d},)")
-        if before is not None and np.array_equal(before, after):
+        if before is not None and np.array_equal(before, after) and any(h != l for l, h in zip(lo, hi)):
             return Failure("oracle", f"{where}: reset did not draw a new direction ({after.tolist()})")
         if self.replay is None:
             # unseeded: nothing to replay; synchronise the model with the drawn direction
@@ -318,8 +371,13 @@ class Run:
         z = self.replay.standard_normal(self.d)
         want = [float(fr(zj) * (h - l)) for zj, l, h in zip(z, lo, hi)]
         if after.tolist() != want:
-            return Failure("oracle", f"{where}: direction {after.tolist()} != standard_normal({self.d}) * ranges "
-                           f"= {want} replayed from the seed (z={z.tolist()})")
+            return Failure("oracle", f"{where}: direction {after.tolist()} != standard_normal({self.d}) * "
+                           f"(upper_bounds - lower_bounds) = {want} replayed from the seed (z={z.tolist()}, "
+                           f"current lower_bounds={lb.tolist()}, upper_bounds={ub.tolist()})")
+        key = (lb.tolist(), ub.tolist())
+        if self.bounds_at_reset and self.bounds_at_reset[-1] != key:
+            STATS["resets-after-the-bounds-moved"] += 1
+        self.bounds_at_reset.append(key)
         self.drv.ask(f"reset z={ql(fr(x) for x in z)} lo={ql(lo)} hi={ql(hi)}")
         m = self.model_dir()
         if m is None or [float(x) for x in m] != after.tolist():
@@ -475,6 +533,11 @@ def build_batch(rows, sdt, fdt, mdt, d, sol_dim):
     return data, info
 
 
+_MAIN_PID = os.getpid()
+_STATS_DIR = [None]  # where forked thorough-tier workers leave their counters
+_CASES = [0]
+
+
 def run_case(case):
     warnings.simplefilter("ignore")
     try:
@@ -482,6 +545,14 @@ def run_case(case):
     except Infra:
         _close_driver()
         raise
+    finally:
+        _CASES[0] += 1
+        if os.getpid() != _MAIN_PID and _STATS_DIR[0] and _CASES[0] % 20 == 0:
+            # a forked worker of the thorough tier: its counters would otherwise be lost
+            path = os.path.join(_STATS_DIR[0], f"{os.getpid()}.json")
+            with open(path + ".tmp", "w") as f:
+                json.dump(STATS, f)
+            os.replace(path + ".tmp", path)
 
 
 def _run_case(case):
@@ -503,6 +574,10 @@ def _run_case(case):
         name = op["op"]
         where = f"op#{step} {name}"
         if name == "reset":
+            if kind in DIR and bounds_of(archive) is None:
+                # empty ProximityArchive: it has no bounds yet (only reachable in shrunk cases)
+                STATS["resets-skipped-empty-archive"] += 1
+                continue
             before = run.impl_dir()
             run.ranker.reset(run.emitter, archive)
             f = run.after_reset(where, before)
@@ -518,10 +593,11 @@ def _run_case(case):
             if f:
                 return f
         elif name == "fill":
-            rows = op["rows"]
-            if rows and case["archive"] != "proximity":
-                archive.add(np.zeros((len(rows), sol_dim)), [r[OBJ] for r in rows],
-                            np.array([r[MEAS] for r in rows]).reshape(len(rows), -1)[:, :d])
+            before = run.impl_dir()
+            grow(archive, op["rows"], d, sol_dim, single=bool(op.get("single")))
+            after = run.impl_dir()
+            if (before is None) != (after is None) or (before is not None and not np.array_equal(before, after)):
+                return Failure("oracle", f"{where}: the direction moved without a reset ({before} -> {after})")
         elif name == "rank":
             rows = op["rows"]
             data, info = build_batch(rows, op["sdt"], op["fdt"], op.get("mdt", op["fdt"]), d, sol_dim)
@@ -561,6 +637,7 @@ def _run_case(case):
                 return f
             if full and case["via"] == "emitter":
                 before = run.impl_dir()
+                restarts = run.emitter.restarts
                 try:
                     run.emitter.tell(sols, obj, meas, info)
                 except Exception:  # pylint: disable=broad-except
@@ -568,13 +645,16 @@ def _run_case(case):
                     STATS["tell-raised"] += 1
                     break
                 after = run.impl_dir()
-                if kind in DIR and not np.array_equal(before, after):
-                    # the emitter restarted: that must have been exactly one reset
+                if run.emitter.restarts != restarts:
+                    # the emitter restarted: exactly one reset, against the archive's bounds as they are now
                     STATS["restarts-inside-tell"] += 1
                     f = run.after_reset(where + " (restart inside tell)", before)
                     if f:
                         return f
                 else:
+                    if kind in DIR and not np.array_equal(before, after):
+                        return Failure("oracle", f"{where}: the direction moved in tell() without a restart "
+                                       f"({before} -> {after})")
                     f = run.compare_dir(where + " (after tell)")
                     if f:
                         return f
@@ -697,19 +777,48 @@ def gen_batches(rng):
     return case
 
 
+def moving_archive(rng, case, d):
+    """archive whose measure bounds move while it is used: SlidingBoundariesArchive (remaps) or
+    ProximityArchive (bounds = extent of the contents; must not be empty at a reset)"""
+    case["archive"] = rng.choice(["sliding", "proximity"])
+    if case["archive"] == "sliding":
+        case["remap"] = rng.choice([1, 2, 3, 5])
+        case["buffer"] = rng.choice([2, 4, 8])
+        case["dims"] = [rng.choice([2, 3, 5]) for _ in range(d)]
+        case["prefill"] = wide_rows(rng, rng.choice([0, 0, 1, 3]), d)
+    else:
+        case["nov_thr"] = rng.choice([0.0, 0.25, 0.5])
+        case["prefill"] = wide_rows(rng, rng.randint(1, 4), d)
+
+
+def wide_rows(rng, n, d):
+    """rows whose (dyadic) measures spread well beyond the initial ranges, so that bounds really move"""
+    rows = gen_rows(rng, n, d, False, False)
+    scale = rng.choice([0.25, 1.0, 1.0, 4.0])
+    for r in rows:
+        r[MEAS] = [scale * rng.choice([-3.0, -2.0, -1.0, -0.5, 0.0, 0.25, 0.5, 1.0, 1.5, 2.0, 5.0]) for _ in range(d)]
+    return rows
+
+
 def gen_direction(rng):
     kind = rng.choice(["rd", "2rd"])
     case = base_case(rng, kind)
-    case["archive"] = rng.choice(["grid", "grid", "density"])
+    case["archive"] = rng.choice(["grid", "density"])
+    d = len(case["ranges"])
+    moving = rng.random() < 0.6
+    if moving:
+        moving_archive(rng, case, d)
     case["seedkind"] = rng.choice(["int", "int", "seq", "none"] if rng.random() < 0.5 else ["int", "seq"])
     case["via"] = rng.choice(["direct", "emitter"]) if case["seedkind"] == "int" else "direct"
-    d = len(case["ranges"])
     ops = []
     if rng.random() < 0.3:
         ops.append({"op": "fill", "rows": gen_rows(rng, rng.randint(1, 4), d, False, False)})
     real = case["via"] == "emitter"  # a drawn (non-dyadic) direction is in force
     for _ in range(rng.randint(2, 10)):
         r = rng.random()
+        if moving and rng.random() < 0.35:
+            # entries arrive between two resets: the archive's bounds move (remap / growth)
+            ops.append({"op": "fill", "rows": wide_rows(rng, rng.randint(1, 5), d), "single": rng.random() < 0.5})
         if r < 0.35:
             ops.append({"op": "reset"})
             real = True
@@ -731,6 +840,10 @@ def gen_emitter(rng, adts=tuple(FLOAT_DTYPES)):
     case["via"] = "emitter"
     case["archive"] = {"nov": "proximity", "density": "density"}.get(kind, "grid")
     d = len(case["ranges"])
+    if kind in DIR and rng.random() < 0.7:
+        # restarts (= ranker resets) on an archive whose bounds have moved since the previous reset
+        moving_archive(rng, case, d)
+    case["restart_rule"] = rng.choice(["no_improvement", "no_improvement", 1, 1, 2, "basic"])
     bs = case["batch_size"]
     ops = []
     floor = 0.0
@@ -806,6 +919,7 @@ def features(ctx, case):
             ctx.count("rank-calls")
             ctx.count("n=1" if n == 1 else "n=0" if n == 0 else "n>=2")
             ctx.count("status-dtype:" + op["sdt"])
+            ctx.count("archive:" + case["archive"])
             ctx.count("float-dtype:" + op["fdt"])
             if op.get("cut"):
                 ctx.count("rejection:" + op["cut"])
@@ -814,35 +928,48 @@ def features(ctx, case):
 
 
 def run(ctx):
-    def counted(gen):
-        def g(rng):
-            case = gen(rng)
-            features(ctx, case)
-            return case
-        return g
+    def counted(case):
+        # `nontrivial` is evaluated exactly once per case, in the parent process, in the serial and in the
+        # parallel (forked workers) mode of ctx.explore alike: count the case's features there
+        features(ctx, case)
+        return nontrivial(case)
 
-    combos = combo_cases([-1.0, 0.5] if ctx.quick else [-1.0, 0.0, 0.5], 3 if ctx.quick else 4, 40)
-    all_combos = list(combos)
+    all_combos = list(combo_cases([-1.0, 0.5] if ctx.quick else [-1.0, 0.0, 0.5], 3 if ctx.quick else 4, 40))
+    # the enumeration is indexed by the case index; ctx.explore hands the generator only the per-index rng
+    # (possibly inside a forked worker), so the index is recovered from that rng's first output
+    index_of = {ctx.rng("combinations", i).getrandbits(64): i for i in range(len(all_combos))}
+    if len(index_of) != len(all_combos):
+        raise Infra("combination index table collided")
 
-    def next_combo(rng, it=iter(all_combos)):  # pylint: disable=unused-argument
-        return dict(next(it))
+    def nth_combo(rng):
+        return dict(all_combos[index_of[rng.getrandbits(64)]])
 
+    _STATS_DIR[0] = tempfile.mkdtemp(prefix="c17stats_")
     try:
-        ctx.explore("combinations", counted(next_combo), run_case, len(all_combos), nontrivial=nontrivial,
+        ctx.explore("combinations", nth_combo, run_case, len(all_combos), nontrivial=counted,
                     time_budget=8 if ctx.quick else 100)
-        ctx.explore("batches", counted(gen_batches), run_case, ctx.n(1000, 120000), nontrivial=nontrivial,
+        ctx.explore("batches", gen_batches, run_case, ctx.n(1000, 120000), nontrivial=counted,
                     time_budget=10 if ctx.quick else 140)
-        ctx.explore("direction", counted(gen_direction), run_case, ctx.n(500, 50000), nontrivial=nontrivial,
-                    time_budget=6 if ctx.quick else 80)
+        ctx.explore("direction", gen_direction, run_case, ctx.n(500, 50000), nontrivial=counted,
+                    time_budget=9 if ctx.quick else 80)
         # numba compiles the optimizer once per dtype (seconds): the quick tier keeps to float64 archives here
         # (float32 archives are covered by the other strata and by the thorough tier)
         adts = ("float64",) if ctx.quick else tuple(FLOAT_DTYPES)
-        ctx.explore("emitter", counted(lambda rng: gen_emitter(rng, adts)), run_case, ctx.n(250, 20000),
-                    nontrivial=nontrivial, time_budget=10 if ctx.quick else 90)
+        ctx.explore("emitter", lambda rng: gen_emitter(rng, adts), run_case, ctx.n(250, 20000),
+                    nontrivial=counted, time_budget=10 if ctx.quick else 90)
     finally:
         _close_driver()
-        for k, v in STATS.items():
-            ctx.count(k + " (incl. shrinking re-runs)", v)
+        total = dict(STATS)
+        for path in glob.glob(os.path.join(_STATS_DIR[0], "*.json")):
+            try:
+                for k, v in json.load(open(path)).items():
+                    total[k] = total.get(k, 0) + v
+            except (OSError, ValueError):
+                pass
+        shutil.rmtree(_STATS_DIR[0], ignore_errors=True)
+        _STATS_DIR[0] = None
+        for k, v in total.items():
+            ctx.count(k + " (incl. shrinking re-runs; workers report every 20 cases)", v)
 
 
 def replay(ctx, case):
